@@ -41,7 +41,7 @@ ASSUMPTIONS = [
     "1e-12 relative for pure conversions, 1e-9 for whole simulations",
 ]
 BUDGET = {"quick": (32, 6), "thorough": (None, 30)}
-GEN = dict(mode="mid", max_households=3)
+GEN = dict(mode="branch", max_households=3)  # branch mode: amounts at thresholds, rental and capital losses
 PER_Y = {"y": 1.0, "m": 12.0, "w": 365.25 / 7, "d": 365.25}
 _UNIT = re.compile(r"(?P<base>.*_)(?P<u>[ymwd])(?P<g>_(?:%s))?$" % "|".join(SUPPORTED_GROUPINGS))
 INPUT_FLOWS = [c for c, t in TYPES_INPUT_VARIABLES.items() if t is float and _UNIT.match(c)]
